@@ -344,6 +344,60 @@ Definition h_step (h : hstate) (e : hevent) : hstate :=
 
 Definition h_run (h : hstate) (evs : list hevent) : hstate := fold_left h_step evs h.
 
+(* ------------------------------------------------------------ two connections of one neighbour *)
+
+(* The ConnArbiter of a peer has two connection slots (Role::Active, Role::Passive).  [h_step]
+   describes the connections of one role (HUp / HFailedConnect are refused by accept_connection
+   while a session of that role exists).  [cstate] adds the other slot: a second connection of the
+   same neighbour that is registered with the arbiter and has not reached Established ([c_sib]).
+   Each connection ends through its own session_loop / apply_disconnect: the end of one is not
+   influenced by the other slot being in use.  The slot flags themselves are only what decides
+   whether accept_connection admits a connection and whether run() resets the Peer record; the
+   GR / LLGR handling of apply_disconnect does not read them. *)
+Record cstate := { c_h : hstate; c_sib : bool }.
+
+Definition c0 : cstate := {| c_h := h0; c_sib := false |}.
+
+Inductive cevent :=
+| CBase (e : hevent)             (* an event of [h_step]; connections are those of the first role *)
+| CSibOpen                       (* accept_connection admits a connection of the other role: OpenSent *)
+| CSibFail                       (* it ends in OpenSent / OpenConfirm *)
+| CSibUp (fams : list fam) (gr : option (list fam * N * bool)) (llgr : option (list (fam * N))).
+                                 (* the neighbour's OPEN arrives on it *)
+
+(* Established on a connection that accept_connection has admitted before: apply_outputs and
+   process_effects do not look at admin_down (only accept_connection does), so this is the
+   establishment part of HUp with that check passed *)
+Definition establish (h : hstate) (fams : list fam) (gr : option (list fam * N * bool))
+           (llgr : option (list (fam * N))) : hstate :=
+  h_step (h_step (h_step h (HSetAdminDown false)) (HUp fams gr llgr)) (HSetAdminDown (h_admin_down h)).
+
+Definition c_step (c : cstate) (e : cevent) : cstate :=
+  match e with
+  | CBase HForceDown =>
+      (* force_down sends the close reason to both slots: the second connection ends as well *)
+      let h' := h_step (c_h c) HForceDown in
+      {| c_h := if c_sib c then apply_disconnect h' None None else h'; c_sib := false |}
+  | CBase e => {| c_h := h_step (c_h c) e; c_sib := c_sib c |}
+  | CSibOpen =>
+      (* refused for an admin-down peer; a second one of the same role is refused as well *)
+      if h_admin_down (c_h c) then c else {| c_h := c_h c; c_sib := true |}
+  | CSibFail =>
+      if c_sib c then {| c_h := apply_disconnect (c_h c) None None; c_sib := false |} else c
+  | CSibUp fams gr llgr =>
+      if c_sib c then
+        match h_sess (c_h c) with
+        | Some _ =>
+            (* PeerFsm::check_collision: the Established connection wins, this one is closed with a
+               Cease / Connection Collision Resolution and ends with nothing negotiated *)
+            {| c_h := apply_disconnect (c_h c) None None; c_sib := false |}
+        | None => {| c_h := establish (c_h c) fams gr llgr; c_sib := false |}
+        end
+      else c
+  end.
+
+Definition c_run (c : cstate) (evs : list cevent) : cstate := fold_left c_step evs c.
+
 (* ------------------------------------------------------------ observation *)
 
 Definition v_pairs (l : list (fam * N)) : val := VList VPairN l.
@@ -386,3 +440,14 @@ Fixpoint observe_h (h : hstate) (evs : list hevent) : list val :=
   end.
 
 Definition run_h_case (evs : list hevent) : val := VL (observe_h h0 evs).
+
+Fixpoint observe_c (c : cstate) (evs : list cevent) : list val :=
+  match evs with
+  | [] => []
+  | e :: r => let c' := c_step c e in
+              let h' := c_h c' in
+              VL [VB (is_peer_restarting (h_gr h')); VB (h_rtimer h'); VNs (h_ltimers h');
+                  VList v_route (h_rib h'); v_negotiated (h_sess h')] :: observe_c c' r
+  end.
+
+Definition run_c_case (evs : list cevent) : val := VL (observe_c c0 evs).
